@@ -108,7 +108,7 @@ class Reader:
                 nc = nc or 385
                 ns = ns or self.file_bin.stat().st_size / 2 / 385
                 fs = fs or 30000
-                nsync = nsync or 1
+                nsync = 1 if nsync is None else nsync
 
             err_str = "Instantiating an Reader without meta data requires providing nc, fs and nc parameters"
             assert nc is not None and fs is not None and nc is not None, err_str
